@@ -1,6 +1,7 @@
 package props
 
 import (
+	"bytes"
 	"fmt"
 	"testing"
 	"time"
@@ -103,6 +104,12 @@ func FuzzC07Payload(f *testing.F) {
 		f.Add(signTx(tc.l2, nil, nil, nil, nil, henv.L2ChainID))
 		f.Add([]byte{0x0a, 0x00})
 		f.Add([]byte("not a transaction"))
+		// D11: the signer address of a signed transaction made undecodable
+		bad := signTx(tc.l2, []sdk.Msg{send(1)}, []cryptotypes.PrivKey{signer.Priv}, []uint64{num}, []uint64{seq}, henv.L2ChainID)
+		if at := bytes.Index(bad, []byte(signer.Str)); at >= 0 {
+			bad[at+20], bad[at+21] = 0xff, 0x7f
+			f.Add(bad)
+		}
 	}
 	f.Fuzz(func(t *testing.T, data []byte) {
 		if len(data) == 0 || len(data) > 4000 {
